@@ -1,2 +1,130 @@
-import Pakhi.Model.Interp
-import Pakhi.Model.Parser
+/-
+  C13 — runtime faults stop the program with a located Pakhi error, never a panic.
+
+  Every listed fault kind is an `.err` value of the evaluator, carrying the line and file of the
+  statement (or operand) that the Rust code reports and the output printed so far; the run loop
+  returns the first error unchanged, so nothing after the failing statement runs and what was
+  printed before is kept; `_এরর(m)` reports exactly `m`.  The faults themselves are proved where they
+  arise: operand type mismatches in C01 (`*_type_error`), undeclared names in C04, non-boolean
+  conditions in C02, list positions in C16, calls in C05, printing nil / functions in C18.  Here:
+  index faults, built-in faults, the `_এরর` built-in, malformed control statements, first-error-stops.
+  "Never a panic" for whole runs needs the heap invariant `InBounds` carried through the evaluator
+  (every `.list i` / `.record i` value points into its arena); that induction is not closed yet and
+  the clause is decided meanwhile by the C13 fault matrix (the harness reports every Rust panic).
+-/
+import Pakhi.Lemmas.Control
+
+namespace Pakhi
+namespace C13
+
+/-- list index out of range (too large, negative, NaN) and a missing record key are runtime errors located at
+    the index expression; a wrongly typed index is a type / runtime error — none of them panics -/
+theorem index_faults (m : Meta) (h : Heap) (a : Nat) :
+    (∀ l n, h.lists[a]? = some l → listPosition n l.length = none →
+        ∃ e, indexVal m (.list a) (.num n) h = .err e ∧ e.cls = .runtime ∧ e.line = m.line ∧ e.file = m.file) ∧
+    (∀ r k, h.records[a]? = some r → assocGet r k = none →
+        ∃ e, indexVal m (.record a) (.str k) h = .err e ∧ e.cls = .runtime ∧ e.line = m.line ∧ e.file = m.file) ∧
+    (∀ v, (∀ n, v ≠ .num n) → ∃ e, indexVal m (.list a) v h = .err e ∧ e.line = m.line) ∧
+    (∀ v, (∀ k, v ≠ .str k) → ∃ e, indexVal m (.record a) v h = .err e ∧ e.line = m.line) := by
+  refine ⟨?_, ?_, ?_, ?_⟩
+  · intro l n hl hp; simp [indexVal, hl, hp, metaErr, mkErr]
+  · intro r k hr hk; simp [indexVal, hr, hk, metaErr, mkErr]
+  · intro v hv; cases v <;> first | exact absurd rfl (hv _) | simp [indexVal, metaErr, mkErr]
+  · intro v hv; cases v <;> first | exact absurd rfl (hv _) | simp [indexVal, metaErr, mkErr]
+
+/-- indexing something that is no container is an error, never a panic -/
+theorem index_non_container (m : Meta) (c i : Val) (h : Heap) (hc : (∀ a, c ≠ .list a) ∧ (∀ a, c ≠ .record a)) :
+    ∃ e, indexVal m c i h = .err e ∧ e.line = m.line := by
+  cases c <;> cases i <;> first | exact absurd rfl (hc.1 _) | exact absurd rfl (hc.2 _) | simp [indexVal, metaErr, mkErr]
+
+/-- indexed assignment: out of range, missing key on the way, wrong index kind, not a container — located
+    errors at the statement, the heap is not changed (no new heap is produced) -/
+theorem assign_faults (st : Stmt) (rest : List Stmt) (v : Val) (h : Heap) (a : Nat) :
+    (∀ l n more, h.lists[a]? = some l → listPosition n l.length = none →
+        ∃ e, assignPath (st :: rest) (.list a) (.pos n :: more) v h = .err e ∧ e.cls = .runtime ∧ e.line = st.meta.line) ∧
+    (∀ r k ix more, h.records[a]? = some r → assocGet r k = none →
+        ∃ e, assignPath (st :: rest) (.record a) (.key k :: ix :: more) v h = .err e ∧ e.cls = .runtime ∧ e.line = st.meta.line) ∧
+    (∀ l k more, h.lists[a]? = some l → ∃ e, assignPath (st :: rest) (.list a) (.key k :: more) v h = .err e ∧ e.line = st.meta.line) ∧
+    (∀ r n more, h.records[a]? = some r → ∃ e, assignPath (st :: rest) (.record a) (.pos n :: more) v h = .err e ∧ e.line = st.meta.line) := by
+  refine ⟨?_, ?_, ?_, ?_⟩
+  · intro l n more hl hp; simp [assignPath, hl, hp, stmtErr, mkErr]
+  · intro r k ix more hr hk; simp [assignPath, hr, hk, stmtErr, mkErr]
+  · intro l k more hl; simp [assignPath, stmtErr, mkErr]
+  · intro r n more hr; simp [assignPath, stmtErr, mkErr]
+
+/-- `_এরর(m)` stops the program with exactly the message `m`, located at the current statement, keeping the output -/
+theorem error_builtin_exact (prog : List Stmt) (f : Nat) (st : Stmt) (rest : List Stmt) (tok : Token) (m0 : Meta) (args : Exprs)
+    (s s1 : St) (msg : Str) (ht : tok.lexeme = W.fnError) (ha : evalList prog f (st :: rest) args s = .ok ([.str msg], s1)) :
+    evalCall prog (f+1) (st :: rest) (.var tok m0) args s =
+      .err { cls := .runtime, line := st.meta.line, file := st.meta.file, msg := msg, out := s1.out } := by
+  have hb : isBuiltin W.fnError = true := by decide
+  simp [evalCall, stripGroups, ht, hb, ha]
+
+/-- every failure of a built-in (wrong argument count or type, invalid position, file-system failure, text that
+    is no number) is a runtime error located at the current statement, with the output so far -/
+theorem builtin_fault_located (prog : List Stmt) (f : Nat) (st : Stmt) (rest : List Stmt) (tok : Token) (m0 : Meta) (args : Exprs)
+    (s s1 : St) (vs : List Val) (tag : Str) (hb : isBuiltin tok.lexeme = true) (hne : tok.lexeme ≠ W.fnError)
+    (ha : evalList prog f (st :: rest) args s = .ok (vs, s1)) (hf : callBuiltin tok.lexeme vs s1 = .inr tag)
+    (hp : tag ≠ panicTag) :
+    evalCall prog (f+1) (st :: rest) (.var tok m0) args s =
+      .err { cls := .runtime, line := st.meta.line, file := st.meta.file, msg := tag, out := s1.out } := by
+  have h1 : (tok.lexeme == W.fnError) = false := by simpa using hne
+  have h2 : (tag == panicTag) = false := by simpa using hp
+  simp [evalCall, stripGroups, hb, ha, h1, hf, h2]
+
+/-- the run loop returns the first error unchanged: nothing after the failing statement runs -/
+theorem first_error_stops (prog : List Stmt) (g : GcMode) (f k : Nat) (st : Stmt) (rest : List Stmt) (s : St) (e : PErr)
+    (hst : ∀ m, st ≠ .eos m) (hx : exec prog f (st :: rest) s = .err e) :
+    runLoop prog g (f+1) k (st :: rest) s = .err e := by
+  cases st <;> simp_all [runLoop]
+
+/-- a normally ending program stops at the end marker -/
+theorem run_ends_at_eos (prog : List Stmt) (g : GcMode) (f k : Nat) (m : Meta) (rest : List Stmt) (s : St) :
+    runLoop prog g (f+1) k (.eos m :: rest) s = .ok s ∧ runLoop prog g (f+1) k [] s = .ok s := by
+  simp [runLoop]
+
+/-- malformed control statements are located runtime errors, not panics (they used to be an assertion failure,
+    two usize underflows and a popped root scope) -/
+theorem malformed_control_is_error (prog : List Stmt) (f : Nat) (m : Meta) (rest : List Stmt) (s : St) :
+    (s.flags = [] → ∃ e, exec prog (f+1) (.else m :: rest) s = .err e ∧ e.cls = .runtime ∧ e.line = m.line) ∧
+    (s.loops = [] → ∃ e, exec prog (f+1) (.cont m :: rest) s = .err e ∧ e.cls = .runtime ∧ e.line = m.line) ∧
+    (s.scopes.length ≤ 1 → ∃ e, exec prog (f+1) (.blockEnd m :: rest) s = .err e ∧ e.cls = .runtime ∧ e.line = m.line) ∧
+    (∀ x, ∃ e, exec prog (f+1) (.ret x m :: rest) s = .err e ∧ e.cls = .runtime ∧ e.line = m.line) := by
+  refine ⟨?_, ?_, ?_, ?_⟩
+  · intro h; simp [exec, h, stmtErr, mkErr, Res.tagOut, Stmt.meta]
+  · intro h; simp [exec, h, stmtErr, mkErr, Res.tagOut, Stmt.meta]
+  · intro h; simp [exec, h, stmtErr, mkErr, Res.tagOut, Stmt.meta]
+  · intro x; simp [exec, stmtErr, mkErr, Res.tagOut, Stmt.meta]
+
+/-- the pure operator helpers never panic on scalars -/
+theorem scalar_ops_never_panic (op : TK) (m : Meta) (l r : Val) (p : String) :
+    mulDiv op m l r ≠ .panic p ∧ compare op m l r ≠ .panic p ∧ equality op m l r ≠ .panic p ∧
+    andOr true m l r ≠ .panic p ∧ andOr false m l r ≠ .panic p ∧ unaryOp op m l ≠ .panic p := by
+  refine ⟨?_, ?_, ?_, ?_, ?_, ?_⟩
+  · unfold mulDiv; repeat' split
+    all_goals simp [metaErr, mkErr]
+  · unfold compare; repeat' split
+    all_goals simp [metaErr, mkErr]
+  · unfold equality; repeat' split
+    all_goals simp [metaErr, mkErr]
+  · unfold andOr; repeat' split
+    all_goals simp [metaErr, mkErr]
+  · unfold andOr; repeat' split
+    all_goals simp [metaErr, mkErr]
+  · unfold unaryOp; repeat' split
+    all_goals simp [metaErr, mkErr]
+
+/-- `+` panics only if an operand points outside the list arena (excluded by the `InBounds` invariant) -/
+theorem addSub_panics_only_out_of_bounds (op : TK) (m : Meta) (l r : Val) (h : Heap) (p : String)
+    (hl : ∀ i, l = .list i → i < h.lists.length) (hr : ∀ i, r = .list i → i < h.lists.length) :
+    addSub op m l r h ≠ .panic p := by
+  unfold addSub
+  repeat' split
+  all_goals (try simp [metaErr, mkErr])
+  all_goals (rename_i i j hx _ _; exfalso
+             have h1 := hl i rfl; have h2 := hr j rfl
+             cases ha : h.lists[i]? <;> cases hb : h.lists[j]? <;> simp_all
+             all_goals (first | exact absurd (List.getElem?_eq_none_iff.mp ha) (by omega) | exact absurd (List.getElem?_eq_none_iff.mp hb) (by omega)))
+
+end C13
+end Pakhi
